@@ -1,4 +1,4 @@
-//@serves C10 C11 C16
+//@serves C10 C11 C14 C16 C17
 //@tier A
 //@include prelude/head.rs
 verus! {
@@ -35,6 +35,37 @@ impl IntoCReturn for OwnedFd {
 impl IntoCReturn for Handle {
 //@prove capi.ret.Handle
 }
+//@item src/resolvers.rs :: enum ResolverBackend | sub.ResolverBackend
+//@item src/resolvers.rs :: struct Resolver | sub.Resolver
+//@item src/root.rs :: struct Root | sub.Root
+impl vstd::std_specs::convert::FromSpecImpl<Root> for OwnedFd {
+    open spec fn obeys_from_spec() -> bool { true }
+    open spec fn from_spec(r: Root) -> OwnedFd { r.inner }
+}
+impl From<Root> for OwnedFd {
+//@prove root.From_Root_for_OwnedFd
+}
+impl Root {
+//@use root.Root.open
+}
+impl IntoCReturn for Root {
+//@prove capi.ret.Root
+}
+pub mod utils {
+    use super::*;
+//@use capi.parse_path
+}
+pub type RawFd = i32;
+pub type c_uint = u32;
+pub type dev_t = u64;
+//@item src/capi/utils.rs :: struct CBorrowedFd | sub.CBorrowedFd
+/// the C-level result of pathrs_inroot_mknod (its body is proved in U19 as `pathrs_inroot_mknod__body`, its
+/// conversion to an int by the IntoCReturn impls above); here only *which call is made* matters
+pub uninterp spec fn mknod_c_result(root_fd: CBorrowedFd<'_>, path: *const c_char, mode: c_uint, dev: dev_t) -> c_int;
+#[verifier::external_body]
+pub fn pathrs_inroot_mknod(root_fd: CBorrowedFd<'_>, path: *const c_char, mode: c_uint, dev: dev_t) -> (r: c_int)
+    ensures r == mknod_c_result(root_fd, path, mode, dev)
+{ unimplemented!() }
 impl IntoCReturn for File {
 //@prove capi.ret.File
 }
@@ -44,5 +75,7 @@ where
 {
 //@prove capi.ret.Result
 }
+//@prove capi.pathrs_open_root
+//@prove capi.pathrs_inroot_mkdir
 } // verus!
 fn main() {}
